@@ -1061,3 +1061,98 @@ Section SpecFacts.
     apply (proj1 (inpair_seteq _ _ _ _ Hset)). exact P.
   Qed.
 End SpecFacts.
+
+(* ================================================================== 13. a valid schedule IS an arrangement of the enumeration *)
+Definition seteq (a b : list nat) : Prop := forall x, In x a <-> In x b.
+
+Lemma seteq_sym a b : seteq a b -> seteq b a.
+Proof. unfold seteq. intros H x. symmetry. auto. Qed.
+Lemma seteq_trans a b c : seteq a b -> seteq b c -> seteq a c.
+Proof. unfold seteq. intros H1 H2 x. rewrite H1. auto. Qed.
+
+Lemma FOP_app {A} (R : A -> A -> Prop) l1 l2 :
+  ForallOrdPairs R l1 -> ForallOrdPairs R l2 -> (forall a b, In a l1 -> In b l2 -> R a b) ->
+  ForallOrdPairs R (l1 ++ l2).
+Proof.
+  induction l1 as [|x l1 IH]; cbn; intros H1 H2 H; auto.
+  inversion H1 as [|? ? F FO]; subst. constructor.
+  - apply Forall_app. split; auto. apply Forall_forall. intros b Hb. apply H; cbn; auto.
+  - apply IH; auto; intros a b Ha Hb; apply H; cbn; auto.
+Qed.
+
+Lemma FOP_filter {A} (R : A -> A -> Prop) (p : A -> bool) l :
+  ForallOrdPairs R l -> ForallOrdPairs R (filter p l).
+Proof.
+  induction l as [|x l IH]; cbn; intros H; auto. inversion H as [|? ? F FO]; subst.
+  destruct (p x); auto. constructor; auto.
+  rewrite Forall_forall in *. intros b Hb. apply filter_In in Hb. apply F. tauto.
+Qed.
+
+Lemma FOP_map_in {A B} (R : A -> A -> Prop) (R' : B -> B -> Prop) (f : A -> B) l :
+  (forall a b, In a l -> In b l -> R a b -> R' (f a) (f b)) ->
+  ForallOrdPairs R l -> ForallOrdPairs R' (map f l).
+Proof.
+  induction l as [|x l IH]; cbn; intros H FO; [constructor|].
+  inversion FO as [|? ? F FO']; subst. constructor.
+  - rewrite Forall_forall in *. intros b Hb. apply in_map_iff in Hb. destruct Hb as [b0 [<- Hb0]].
+    apply H; cbn; auto.
+  - apply IH; auto; intros a b Ha Hb; apply H; cbn; auto.
+Qed.
+
+Lemma cliques_on_distinct es : forall vs, NoDup vs ->
+  ForallOrdPairs (fun a b => ~ seteq a b) (cliques_on es vs).
+Proof.
+  induction vs as [|v t IH]; intros ND; cbn.
+  - constructor; [constructor|constructor].
+  - inversion ND as [|? ? Hv NDt]; subst. specialize (IH NDt).
+    assert (Sub : forall c, In c (cliques_on es t) -> ~ In v c).
+    { intros c Hc Hin. destruct (cliques_on_sound es t c NDt Hc) as [_ [V _]]. apply Hv. auto. }
+    apply FOP_app; auto.
+    + apply (FOP_map_in (fun a b => ~ seteq a b)); [|apply FOP_filter; auto].
+      intros a b Ha Hb N S. apply N. apply filter_In in Ha. apply filter_In in Hb.
+      intros x. split; intros Hx.
+      * assert (In x (v :: b)) by (apply S; cbn; auto). destruct H as [<-|H]; auto.
+        exfalso. apply (Sub a); tauto.
+      * assert (In x (v :: a)) by (apply S; cbn; auto). destruct H as [<-|H]; auto.
+        exfalso. apply (Sub b); tauto.
+    + intros a b Ha Hb S. apply in_map_iff in Ha. destruct Ha as [a0 [<- _]].
+      apply (Sub b Hb). apply S. cbn; auto.
+Qed.
+
+Lemma all_cliques_distinct g : ValidGraph g -> ForallOrdPairs (fun a b => ~ seteq a b) (all_cliques g).
+Proof. intros [ND _]. unfold all_cliques. apply FOP_filter. apply cliques_on_distinct; auto. Qed.
+
+(* pigeonhole: a list as long as a pairwise-inequivalent list A and meeting every class of A is, class by class,
+   a permutation of A *)
+Lemma arrangement_of_distinct (A : list (list nat)) : forall sh,
+  ForallOrdPairs (fun a b => ~ seteq a b) A ->
+  (forall a, In a A -> exists c, In c sh /\ seteq c a) ->
+  length sh = length A ->
+  exists sh', Permutation sh' A /\ Forall2 seteq sh sh'.
+Proof.
+  induction A as [|a A' IH]; intros sh FO Hit Len.
+  - destruct sh; [|discriminate]. exists []. split; constructor.
+  - inversion FO as [|? ? F FO']; subst. rewrite Forall_forall in F.
+    destruct (Hit a) as [c [Hc Sc]]; [cbn; auto|].
+    apply in_split in Hc. destruct Hc as [s1 [s2 ->]].
+    destruct (IH (s1 ++ s2) FO') as [sh0 [P F2]].
+    + intros a' Ha'. destruct (Hit a') as [c' [Hc' Sc']]; [cbn; auto|]. exists c'. split; auto.
+      apply in_app_or in Hc'. apply in_or_app. destruct Hc' as [H|[H|H]]; auto.
+      subst c'. exfalso. apply (F a' Ha'). eapply seteq_trans; [apply seteq_sym; exact Sc|exact Sc'].
+    + rewrite app_length in *. cbn in Len. lia.
+    + apply Forall2_app_inv_l in F2. destruct F2 as [t1 [t2 [F1 [F2 ->]]]].
+      exists (t1 ++ a :: t2). split.
+      * rewrite <- P. symmetry. apply Permutation_middle.
+      * apply Forall2_app; auto.
+Qed.
+
+Theorem valid_sched_arrangement g sh : ValidGraph g -> valid_sched g sh = true ->
+  exists sh', Permutation sh' (all_cliques g) /\ Forall2 seteq sh sh'.
+Proof.
+  intros Hg V. unfold valid_sched in V. apply andb_true_iff in V. destruct V as [V Len].
+  apply andb_true_iff in V. destruct V as [_ V2]. rewrite forallb_forall in V2. apply Nat.eqb_eq in Len.
+  apply arrangement_of_distinct; auto.
+  - apply all_cliques_distinct; auto.
+  - intros a Ha. specialize (V2 a Ha). apply existsb_exists in V2. destruct V2 as [c [Hc S]].
+    exists c. split; auto. apply seteq_sym. exact (proj1 (set_eqb_spec a c) S).
+Qed.
